@@ -589,7 +589,7 @@ def detect_flags(impl):
 
 # ---------------------------------------------------------------- the check
 def gen_cases(rng, thorough):
-    n = 6000 if thorough else 1200
+    n = 30000 if thorough else 1500
     mix = [("oks", 0.36), ("match", 0.30), ("area", 0.06), ("greedy", 0.08), ("hung", 0.05), ("iou", 0.06),
            ("cos", 0.05), ("euc", 0.04)]
     cases = []
@@ -807,7 +807,7 @@ def replay(run: core.Run, path: str) -> int:
     impl = Impl()
     flags = detect_flags(impl)
     rep = json.load(open(path))
-    c = dec(rep["case"])
+    c = dec(rep["case"] if "case" in rep else rep)
     if c["kind"] == "match":
         c["M"] = oks_float_matrix(c, impl)
     m = core.coq_eval_sharded(PREAMBLE, [term(c, flags)], "run", RENDER)[0]
